@@ -294,10 +294,39 @@ func checkC05(c *Ctx) {
 		if !ok {
 			return false
 		}
-		isErrOf := func(x ssa.Value) bool {
+		var isErrOf func(x ssa.Value) bool
+		isErrOf = func(x ssa.Value) bool {
 			x = an.Strip(x)
 			if x == v {
 				return true
+			}
+			if phi, isPhi := x.(*ssa.Phi); isPhi {
+				// `if err == nil && n != len(frame) { err = io.ErrShortWrite }`: the tested value is the call's error
+				// or, on the other edges, an error that is never nil - it is nil only if the call's error was
+				one := false
+				for _, e := range phi.Edges {
+					se := an.Strip(e)
+					switch {
+					case isErrOf(se):
+						one = true
+					case func() bool {
+						if ld, ok := se.(*ssa.UnOp); ok {
+							_, isG := ld.X.(*ssa.Global)
+							return isG
+						}
+						if call, ok := se.(*ssa.Call); ok {
+							if f := call.Common().StaticCallee(); f != nil {
+								k := an.FuncPkgPath(f) + "." + f.Name()
+								return k == "fmt.Errorf" || k == "errors.New"
+							}
+						}
+						return false
+					}():
+					default:
+						return false
+					}
+				}
+				return one
 			}
 			ex, ok := x.(*ssa.Extract)
 			return ok && ex.Tuple == v && isErrorType(ex.Type())
